@@ -284,6 +284,7 @@ impl<T: Qcow2IoOps> Qcow2Dev<T> {
             }
 
             //commit all populated caches and make them visible
+            entry.set_ready();
             Ok(cache.commit_wmap())
         } else {
             log::trace!("add_cache_slice: slice is already update");
